@@ -129,8 +129,25 @@ def child_run(kind, root, crash_at, log, result_file, count_only=False):
     os._exit(0)
 
 
-def fork_run(kind, root, crash_at, log, scratch, watchdog=40):
-    """fork; returns (exit status, outcome dict or None, timed_out)"""
+def fork_run(kind, root, crash_at, log, scratch, watchdog=40, prepare=None):
+    """fork; returns (exit status, outcome dict or None, timed_out).  A time-out only counts if it reproduces with four
+    times the budget on a restored copy of the same directory (a busy machine must not look like a hang)."""
+    backup = Path(scratch) / f"bak_{os.getpid()}_{time.monotonic_ns()}"
+    shutil.copytree(root, backup, symlinks=True)
+    logdata = open(log).read() if os.path.exists(log) else ""
+    try:
+        code, out, to = _fork_run(kind, root, crash_at, log, scratch, watchdog)
+        if to:
+            shutil.rmtree(root)
+            shutil.copytree(backup, root, symlinks=True)
+            open(log, "w").write(logdata)
+            code, out, to = _fork_run(kind, root, crash_at, log, scratch, watchdog * 4)
+        return code, out, to
+    finally:
+        shutil.rmtree(backup, ignore_errors=True)
+
+
+def _fork_run(kind, root, crash_at, log, scratch, watchdog):
     result_file = Path(scratch) / f"res_{os.getpid()}_{time.monotonic_ns()}.json"
     pid = os.fork()
     if pid == 0:
